@@ -58,7 +58,21 @@ def impl_roundtrip(case):
         fail = f'read back {back!r}, expected the sysex messages {want!r}'
     elif [vars(m) for m in ms] != before:
         fail = 'messages modified by writing'
-    return 'ok' + (' ' + parsing.canon_list(back) if back else ''), list(data), fail
+    line = 'ok' + (' ' + parsing.canon_list(back) if back else '')
+    if fail is None and back and len(back) < 50:
+        # what was read belongs to the caller: after the caller edits it, reading the untouched file again gives the file
+        try:
+            for m in back:
+                m.data = tuple(m.data) + (1, 2)
+                m.time = 3
+            again = mido.read_syx_file(path)
+            if again != want:
+                fail = f'after the caller edited the messages of an earlier read, reading the unchanged file again gives {again!r}, the file holds {want!r}'
+            elif any(a is b for a in again for b in back):
+                fail = 'two reads of a file handed out the very same message object'
+        except Exception as e:
+            fail = f'second read raised {type(e).__name__}: {e}'
+    return line, list(data), fail
 
 
 HEXD = set('0123456789abcdefABCDEF')
@@ -188,6 +202,13 @@ def gen(ck):
                 j = rng.randrange(len(toks))
                 toks[k:k + 1] = [toks[k][0], toks[k][1]]
                 toks[j:j + 1] = [toks[j][0], toks[j][1]] if len(toks[j]) == 2 else [toks[j]]
+            txt = rng.choice(WS).join(toks)
+        elif r < 0.4 and bs:
+            # a token that int(x, 16) / int(x) style parsing would take but that is not two hex digits: signs, prefixes,
+            # underscores, digits outside 0-9A-F
+            toks = ['%02X' % b for b in bs]
+            k = rng.randrange(len(toks))
+            toks[k] = rng.choice(['+', '-']) + toks[k][1] if rng.random() < 0.6 else rng.choice(['0x', '0X', '1_', '_1', '\xb2' + toks[k][1], toks[k][0] + '\xb9', '+0', '-0', ' +F'])
             txt = rng.choice(WS).join(toks)
         try:
             reads.append(list(txt.encode('latin1')))
